@@ -18,11 +18,6 @@ func calc(numLeaves uint64, hashes []Hash, proof Proof) ([]uint64, []Hash, error
 	if len(proof.Proof) < len(hashes) {
 		return nil, nil, errors.New("proof too short")
 	}
-	for _, t := range proof.Targets {
-		if t > maxPos(numLeaves) {
-			return nil, nil, errors.New("position does not exist")
-		}
-	}
 	out := make([]Hash, 0, len(hashes))
 	for i := range hashes {
 		h := hashes[i]
@@ -34,39 +29,15 @@ func calc(numLeaves uint64, hashes []Hash, proof Proof) ([]uint64, []Hash, error
 
 
 
-func maxPos(numLeaves uint64) uint64 { return 2 * numLeaves }
-
-var empty Hash
-
-func checkNoEmpty(delHashes []Hash, proof Proof) error {
-	for _, h := range delHashes {
-		if h == empty {
-			return errors.New("empty hash")
-		}
-	}
-	for _, h := range proof.Proof {
-		if h == empty {
-			return errors.New("empty proof hash")
-		}
-	}
-	return nil
-}
-
 func Verify(stump Stump, delHashes []Hash, proof Proof) ([]int, error) {
 	if len(delHashes) != len(proof.Targets) { return nil, errors.New("length mismatch") }
-	if err := checkNoEmpty(delHashes, proof); err != nil {
-		return nil, err
-	}
-	positions, cands, err := calc(stump.NumLeaves, delHashes, proof)
+	_, cands, err := calc(stump.NumLeaves, delHashes, proof)
 	if err != nil {
 		return nil, err
 	}
-	if len(positions) != len(cands) {
-		return nil, errors.New("positions")
-	}
 	idx := make([]int, 0, len(cands))
 	for i := range stump.Roots {
-		if len(cands) > len(idx) && stump.Roots[len(stump.Roots)-(i+1)] == cands[len(idx)] {
+		if len(stump.Roots) > len(idx) && stump.Roots[len(stump.Roots)-(i+1)] == cands[len(idx)] {
 			idx = append(idx, len(stump.Roots)-(i+1))
 		}
 	}
@@ -75,7 +46,7 @@ func Verify(stump Stump, delHashes []Hash, proof Proof) ([]int, error) {
 }
 
 func (s *Stump) Update(delHashes []Hash, proof Proof) error {
-	_ = s.del(delHashes, proof)
+	if err := s.del(delHashes, proof); err != nil { return err }
 	s.NumLeaves++
 	return nil
 }
